@@ -231,6 +231,23 @@ def run_conc(kind, prog, pre, nr, seeds, strategy, name, extra=None):
     return execs, s["status"]
 
 
+def run_dtor(kind, nw, prog, seeds, strategy, name, extra=None):
+    """thread A destroys counter X while thread B constructs / counts / reads counter Y of the same type (vsched)"""
+    d = os.path.join(vlib.BUILD, "traces")
+    os.makedirs(d, exist_ok=True)
+    raw = os.path.join(d, "%s.%d.ndjson" % (name, os.getpid()))
+    args = ["--scenario", "dtor", "--params", "kind=%s,ext=%d,nw=%d,prog=%s" % (kind, EXT, nw, prog), "--strategy", strategy,
+            "--seeds", "%d:%d" % seeds, "--out", raw, "--max-steps", "20000", "--no-atomics"]
+    if strategy != "pb":
+        args += ["-j", "4"]
+    if extra:
+        args += extra
+    s = vlib.driver_status(vlib.driver("counters_driver", args))
+    execs = list(vlib.split_traces(raw))
+    os.unlink(raw)
+    return execs, s["status"]
+
+
 def run_tear(kind, old, nw, name):
     """a counting thread pre-empted between its plain stores (single-stepped), a reader thread in between"""
     d = os.path.join(vlib.BUILD, "traces")
@@ -314,6 +331,8 @@ def mon_lines(events):
             out.append(dict(MDEF, k="ret", t=e["t"], op="value", form=e.get("form", 0), r1=squeeze(kind, e["r1"]), r2=e["r2"], has=e["has"], v0=squeeze(kind, e["v0"])))
         elif k == "creset":
             out.append(dict(MDEF, k="creset", t=e.get("t", 0)))
+        elif k == "fresh":
+            out.append(dict(MDEF, k="fresh", r1=squeeze(kind, e["r1"]), r2=e["r2"], has=e["has"], v0=squeeze(kind, e["v0"])))
         elif k == "final":
             out.append(dict(MDEF, k="final", r1=squeeze(kind, e["r1"]), r2=e["r2"], has=e["has"], v0=squeeze(kind, e["v0"])))
         elif k == "end":
